@@ -531,7 +531,9 @@ func (e *Explorer) instr(c *clone, in ssa.Instruction) {
 		if x.Op == token.MUL {
 			e.set(c, x, e.loadFrom(c, x.X, e.heapKey(x.X)))
 		} else if x.Op == token.ARROW {
-			e.set(c, x, Unknown)
+			// what comes out of a channel is what was sent on a channel of that type (one summary cell per channel type,
+			// like the elements of a slice); a channel that is not this call's own yields its own provenance
+			e.set(c, x, e.loadFrom(c, x.X, elemKey(x.X.Type())))
 		}
 	case *ssa.Lookup:
 		e.set(c, x, e.loadFrom(c, x.X, elemKey(x.X.Type())))
@@ -595,6 +597,9 @@ func (e *Explorer) instr(c *clone, in ssa.Instruction) {
 			}
 		}
 	case *ssa.Send:
+		if PointerLike(x.X.Type()) {
+			e.heapAdd(elemKey(x.Chan.Type()), c.prov(x.X))
+		}
 		if !e.AllowGo {
 			e.report(c, x, "send", describeBase(x.Chan), c.prov(x.Chan), "channel send")
 		}
